@@ -14,7 +14,8 @@ def gen_spec(rng, nhosts=None, ndcs=None, kind=None):
     else:
         dcs = [rng.randint(1, ndcs) for _ in range(nhosts)]
     spec = {'kind': kind, 'dcs': dcs,
-            'pred': {'hosts': sorted(rng.sample(range(nhosts), rng.randint(0, nhosts))), 'dc': rng.choice([0, 0, 1, 2])}}
+            'pred': {'hosts': sorted(rng.sample(range(nhosts), rng.randint(0, nhosts))), 'dc': rng.choice([0, 0, 1, 2]),
+                     'style': rng.randrange(4)}}
     if kind == 'wl':
         spec['allowed'] = sorted(rng.sample(range(nhosts), rng.randint(0, nhosts)))
     if kind == 'dca':
